@@ -89,6 +89,68 @@ def applyOverrides : List (String × Option V) → AMap V → AMap V
     emission of `compileMap`: the result lists the entries in visiting order -/
 def inVisitingOrder (f : α → β) (vis : List α) : List β := vis.map f
 
+/-! ### Part 1b — `Set.SortedItems`, `sorted()`, and the VM's import cache over full hash keys -/
+
+/-- `object.HashKey`: the type name and the three value fields.  A float value is carried as
+    its position in the order of the non-NaN float64 values (`flt`; -0 and +0 are one
+    position, as they are one Go map key); `nan` marks a NaN, which compares unequal to and
+    not less than every float, itself included. -/
+structure HKey where
+  ty : String
+  int : Int
+  str : String
+  flt : Int
+  nan : Bool
+  deriving DecidableEq, Repr
+
+/-- the comparator of `Set.SortedItems`, clause by clause:
+    `Type`, then `IntValue`, then `StrValue`, then `FltValue`, else `false` -/
+def hkLess (a b : HKey) : Bool :=
+  if a.ty != b.ty then decide (a.ty < b.ty)
+  else if a.int != b.int then decide (a.int < b.int)
+  else if a.str != b.str then decide (a.str < b.str)
+  else if a.nan || b.nan || a.flt != b.flt then !a.nan && !b.nan && decide (a.flt < b.flt)
+  else false
+
+def hkGe (a b : HKey) : Bool := !hkLess a b
+
+/-- `Set.SortedItems`: collect the items in visiting order, then `sort.Slice` with `hkLess`.
+    Written as Go's `insertionSortLessFunc` (each element in turn moves left while it is
+    less than its left neighbour), which is what `sort.Slice` runs for up to 12 elements; on
+    NaN-free keys `hkLess` is a strict total order and every sorting algorithm returns this
+    list (`sortedItems_perm_invariant`, `Lemmas.isort_unique_pred`). -/
+def sortedItems (vis : List HKey) : List HKey := (isort hkGe vis.reverse).reverse
+
+/-- `for x in set`, `list(set)`, `iter(set)`: the iterator walks the hash keys of
+    `SortedItems` and looks each one up in the Go map; a NaN key is never found, which ends
+    the iteration there -/
+def iterItems (vis : List HKey) : List HKey := (sortedItems vis).takeWhile (fun k => !k.nan)
+
+def noNaN (vis : List HKey) : Bool := vis.all (fun k => !k.nan)
+
+/-- `sort.SliceStable` with `less a b := rank a < rank b` (what `sorted(x, cmp)` does when
+    `cmp` is a strict weak order; `rank` names the classes of items `cmp` cannot tell apart) -/
+def stableSortBy (rank : α → Int) (l : List α) : List α :=
+  isort (fun a b => decide (rank a ≤ rank b)) l
+
+/-- `builtins.Sorted` on a set (on a map: its keys, all of type string): the stable sort
+    STARTS FROM `SortedItems`/`Keys()`, not from the visiting order -/
+def sortedBuiltin (rank : HKey → Int) (vis : List HKey) : List HKey :=
+  stableSortBy rank (sortedItems vis)
+
+/-- `VirtualMachine.applyOptions`: every global that holds a module is entered into the
+    import cache under THE GLOBAL'S name (`insertFold`); `g.1` is the global's name, `g.2` the
+    module (here: its own name and an identity) or `none` for a global that is no module -/
+def moduleCache (vis : List (String × Option (String × Nat))) : AMap (String × Nat) :=
+  foldInsert (fun _ v => v.isSome) (fun _ v => v.getD ("", 0)) vis AMap.empty
+
+/-- the variant that is NOT order-independent (kept for `module_cache_alias_counterexample`):
+    the module is also entered under its own name -/
+def moduleCacheAlias (vis : List (String × Option (String × Nat))) : AMap (String × Nat) :=
+  vis.foldl (fun m g => match g.2 with
+    | some mod => (m.set g.1 mod).set mod.1 mod
+    | none => m) AMap.empty
+
 /-! ## Part 2 — the language fragment -/
 
 mutual
